@@ -1,7 +1,7 @@
-SPECIFICATION MCSpec
+SPECIFICATION MCSpecSub
 CONSTANTS
   FixReturn = TRUE
   FixOrigin = TRUE
-  Inherit = TRUE
+  Inherit = FALSE
   Variant = "fixed"
-INVARIANT P_Model
+CONSTRAINT MRefute
